@@ -51,6 +51,15 @@ let e1 = e0.update(range({k}));
 let e2 = e1.add(100).add(3).remove(100).discard(0).discard(55);
 fn main()->int {{ let e3 = e1.update([7, 8, 9, 7]); e3.len() + e2.len() + e1.contains(2).if(1, 0) }}
 """),
+            # everything in one bucket: the accounted size must follow the entries, not the buckets
+            ("collide%d" % v, f"""
+let m0: Mapping<int, int> = mapping((x: int) -> {{0}}, (p: int, q: int) -> {{p == q}});
+let m1 = m0.update(range({k + 6}).map((i: int) -> {{(i, i + 1)}}));
+let m2 = m1.update_counter([1, 2, 2, 99].to_generator()).map_values((x: int) -> {{x * 2}});
+let e0 = set((x: int) -> {{x % 2}}, (p: int, q: int) -> {{p == q}});
+let e1 = e0.update(range({k + 8}));
+fn main()->int {{ let m3 = m2.update_from_keys(range({k + 9}).to_array(), (i: int) -> {{i}}, (i: int, w: int) -> {{w + 1}}).discard(3).pop(4); let e2 = e1.discard(1).remove(2).add(77); m3.len() + m2.len() + e2.len() }}
+"""),
             ("clos%d" % v, f"""
 fn adder(n: int)->(int)->(int) {{ let big = 2 ** {big}; fn f(x: int)->int {{ x + n + big % 7 }} f }}
 let fs = range({k}).map(adder).to_array();
